@@ -140,7 +140,7 @@ structure FsH where
 deriving Repr, Inhabited
 
 inductive FsStop where
-  | caughtUp | missing | badCommit | halt
+  | caughtUp | missing | badCommit
 deriving Repr, DecidableEq, Inhabited
 
 /-- `(applied, why it stopped)`; `h` = the height of the head of the list; `complete` = the list ends at the height the peer
@@ -149,7 +149,7 @@ def fsLoop (verify : Verify) (chain : List UInt8) (complete : Bool) : Nat → Li
   | h, x :: y :: rest =>
     if !x.avail || !y.avail then (h - 1, .missing)
     else match x.commit with
-      | none => (h - 1, .badCommit)        -- a served block without LastCommit is an invalid commit (fix 7fe70ad; it was a nil dereference in poolRoutine, which has no recover)
+      | none => (h - 1, .badCommit)        -- a served block without LastCommit is an invalid commit (fix f5d5bad; it was a nil dereference in poolRoutine, which has no recover)
       | some c =>
         match verifyCommit verify x.vals chain x.bid h c with
         | .ok _ => fsLoop verify chain complete (h + 1) (y :: rest)
